@@ -566,6 +566,14 @@ struct StrTarget
         case S_SWAP:
         {
             c.site("a_str_swap");
+            if (o.a[3] % 5 == 0)
+            { // both arguments name the same object: an exchange with itself changes nothing
+                int const w = (int)(o.a[2] & 1);
+                a_str_swap(box[w].s, box[w].s);
+                c.st.add("probe.swap_with_itself");
+                check_all("a_str_swap");
+                break;
+            }
             a_str_swap(box[0].s, box[1].s);
             std::swap(box[0].M, box[1].M); std::swap(box[0].t, box[1].t);
             check_all("a_str_swap");
